@@ -3,6 +3,9 @@
 // Box<dyn Any + Send + 'static>: the payload of a panic
 #[verifier::external_body]
 pub struct PanicPayload { _p: () }
+// the payload std::panic::catch_unwind hands back for a caught panic
+#[verifier::external_body]
+pub fn vx_panic_payload_() -> (r: PanicPayload) { unimplemented!() }
 
 // std::sync::Mutex<T> with poisoning: a guard dropped while a panic unwinds poisons the mutex; `lock().unwrap()` panics on a
 // poisoned mutex; `lock()` hands the guard out either way (inside `PoisonError` when poisoned).
